@@ -53,6 +53,22 @@ def dedup_key_rule(R, prefix):
     return ck
 
 
+def running_on_every_step(R, ro, rule):
+    """self.running is set before the generator is entered on *every* path - send() and throw() alike: a task that is handling
+    an exception thrown in at its yield is executing just as much as one that was sent a value (a re-entrant same-key call from
+    its handler must get a fresh task; the scheduler must not treat it as suspended)."""
+    step = ro.generator_step_fn()
+    scfg = cfg_of(step)
+    on = [n for n in kit.store_nodes(step, "running") if isinstance(n.ast, ast.Assign) and q.const_value(n.ast.value) is True]
+    for n, c in ro.step_sites(step):
+        p = scfg.find_path([scfg.entry], [n], N, cut_nodes=on)
+        R.check(p is None and on, rule, "%s:%s" % (step.qualname, q.stmt_key(c)[:40]), R.site(step, c),
+                "self.running is set before %s" % q.src(c)[:40],
+                "`%s` is reached without self.running being set: while the task handles what was thrown into it, it looks idle - a same-key "
+                "deduplicated call from that handler is handed the executing task (ValueError: generator already executing)" % q.src(c)[:40],
+                scfg.fmt_path(p) if p else None)
+
+
 def forwards_full(call):
     return any(isinstance(a, ast.Starred) and q.src(a.value) == "args" for a in call.args) and any(k.arg is None and q.src(k.value) == "kwargs" for k in call.keywords)
 
@@ -244,6 +260,7 @@ def run(R):
             "once self.running is set, every exit of the stepper (normal or exceptional) clears it",
             "the stepper can be left with self.running still True: a suspended in-flight task looks as if it were executing, so same-key callers get a fresh task and the body runs twice",
             scfg.fmt_path(p) if p else None)
+    running_on_every_step(R, ro, "C12.RUNNING")
     # completion notification cannot be bypassed (shared with C10)
     from .c10 import notify_override_rule
     notify_override_rule(R, ro, "C12.NOTIFY")
